@@ -9,7 +9,11 @@ Inductive case_t :=
 | KW (extrap : bool) (xs nxs data : list Z)
      (obsW : option (list (list frac)))      (* per target point: its column of weights *)
      (obsOut : list frac)                    (* interpDimension of data, per target point *)
-| KS (fr to : list Z) (obsC : list (list frac)).   (* coeff[lay][li] *)
+| KS (fr to : list Z) (obsC : list (list frac))    (* coeff[lay][li] *)
+(* interpDimension with an N-D (per-column) coordinate: per column (in processing order) the
+   source levels, the target levels and, per interpolated variable, an optional tag (a, b)
+   meaning data = a * source + b, the data and the library's output *)
+| KN (extrap : bool) (cols : list (list Z * list Z * list (option (Z * Z) * list Z * list frac))).
 
 Definition feq (n d : Z) (f : frac) : bool := (0 <? snd f) && (n * snd f =? fst f * d).
 Fixpoint all2 {A B} (f : A -> B -> bool) (a : list A) (b : list B) : bool :=
@@ -26,8 +30,28 @@ Definition fis (a : frac) (z : Z) : bool := (0 <? snd a) && (fst a =? z * snd a)
 Definition minl (l : list Z) := fold_right Z.min (hd 0 l) l.
 Definition maxl (l : list Z) := fold_right Z.max (hd 0 l) l.
 
+Definition ncol_F (e : bool) (col : list Z * list Z * list (option (Z * Z) * list Z * list frac)) : bool :=
+  let '(xs, nxs, vars) := col in
+  forallb (fun v => let '(_, data, out) := v in
+    all2 (fun x o => match impl_weights e xs x with
+                     | Some wd => feq (fst (apply_col wd data)) (snd (apply_col wd data)) o
+                     | None => false end) nxs out) vars.
+
+(* per column: a variable that is linear in the source coordinate comes out linear in the target
+   coordinate (inside the source range, or everywhere when extrapolating); target = source
+   leaves every variable unchanged *)
+Definition ncol_S (e : bool) (col : list Z * list Z * list (option (Z * Z) * list Z * list frac)) : bool :=
+  let '(xs, nxs, vars) := col in
+  forallb (fun v => let '(tag, data, out) := v in
+    (match tag with
+     | Some (a, b) => all2 (fun x o => negb (e || ((minl xs <=? x) && (x <=? maxl xs))) || fis o (a * x + b)) nxs out
+     | None => Nat.eqb (length out) (length nxs)
+     end)
+    && (negb (zlist_eqb nxs xs) || all2 (fun dv o => fis o dv) data out)) vars.
+
 Definition checkF (k : case_t) : bool :=
   match k with
+  | KN e cols => forallb (ncol_F e) cols
   | KW e xs nxs data oW oOut =>
       match oW with
       | None => forallb (fun x => match impl_weights e xs x with None => true | _ => false end) nxs
@@ -57,6 +81,7 @@ Definition within (fr to : list Z) : bool :=
 
 Definition checkS (k : case_t) : bool :=
   match k with
+  | KN e cols => forallb (ncol_S e) cols
   | KW e xs nxs data oW oOut =>
       match oW with
       | None => false
@@ -77,6 +102,7 @@ Definition region (k : case_t) : nat :=
   match k with
   | KW _ xs _ _ _ _ => if (length xs <? 2)%nat then 1%nat else 0%nat
   | KS _ _ _ => 0%nat
+  | KN _ _ => 0%nat
   end.
 
 Definition check (k : case_t) : verdict := (checkF k, checkS k, region k).
